@@ -1,6 +1,7 @@
 import VaxisModel.Lemmas.VxfwErr
 import VaxisModel.Lemmas.VxfwHover
 import VaxisModel.Lemmas.VxfwHoverErr
+import VaxisModel.Lemmas.VxfwFocusErr
 
 /-!
 # C15 — handlers that return an error
@@ -147,16 +148,7 @@ example :
     let r := eRun e 3 0 t [.ev (.mouse 1 1), .ev (.mouse 5 5)]
     r.2 = true ∧ (hoverRun [] r.1.trace).isSome = true ∧ r.1.lastHits.map Hit.w = [0, 1] := by decide
 
-/-! ### focus pairing and commands-once with failing handlers: the full statements (round 4, NOT proved) and why the
-    error-free forms are false -/
-
-/-- The trace without the FocusOut calls that failed (`k` = number of handler calls before the stretch): a failing FocusOut handler
-cancels the focus change — the focus stays, no FocusIn is sent (`focus_out_error_keeps_focus`). -/
-def dropFailedOut (e : EOracle) : Nat → List Entry → List Entry
-  | _, [] => []
-  | k, .call w ev ph :: r =>
-    if ev = .focusOut ∧ e.fails w ev ph k = true then dropFailedOut e (k + 1) r else .call w ev ph :: dropFailedOut e (k + 1) r
-  | k, x :: r => x :: dropFailedOut e k r
+/-! ### focus pairing (proved) and commands-once (stated) with failing handlers, and why the error-free forms are false -/
 
 /-- The effects owed by the calls that did NOT fail (the command returned together with an error is dropped at every call site). -/
 def owedE (e : EOracle) : Nat → List Entry → List Eff
@@ -164,11 +156,10 @@ def owedE (e : EOracle) : Nat → List Entry → List Eff
   | k, .call w ev ph :: r => (if e.fails w ev ph k then [] else nfEffs (e.o.h w ev ph k).flatten) ++ owedE e (k + 1) r
   | k, _ :: r => owedE e k r
 
-/-- **Focus pairing over whole histories with failing handlers — full statement, not proved.**  Apart from the FocusOut calls whose
-handler failed, all FocusOut / FocusIn notifications pair up from the root widget and end with the widget focused now, wherever `Run`
-ends.  (Proved without failures: `C15.focus_change_once_history`; per command with failures: `focus_out_error_keeps_focus`,
-`focus_in_error_drops_its_command`.  A proof needs the relation `FP` of `Lemmas/VxfwFocus.lean` redone for the error-aware functions
-with the call counter threaded through — the route `Lemmas/VxfwHoverErr.lean` takes for hover.) -/
+/-- **Focus pairing over whole histories with failing handlers — full statement** (proved: `focus_pairs_err`).  Apart from the FocusOut
+calls whose handler failed (`Lemmas.Vxfw.dropFailedOut`: a failing FocusOut handler cancels the focus change — the focus stays, no
+FocusIn is sent), all FocusOut / FocusIn notifications pair up from the root widget and end with the widget focused now, wherever `Run`
+ends. -/
 def focus_pairs_err_full : Prop :=
   ∀ (e : EOracle) (fuel : Nat) (root : Id) (t0 : STree) (steps : List Step),
     focusRun root false (dropFailedOut e 0 (eRun e fuel root t0 steps).1.trace) = some (eRun e fuel root t0 steps).1.focused
@@ -195,5 +186,13 @@ theorem raw_statements_fail_with_errors :
     focusRun 0 false (dropFailedOut e1 0 r1.1.trace) = some 0 ∧
     r2.2 = true ∧ effectsIn r2.1.trace = [] ∧ owed o.h 0 r2.1.trace = [.redraw] ∧ owedE e2 0 r2.1.trace = [] := by
   decide
+
+/-- **`focus_pairs_err`**: for EVERY set of failing calls and every history, the focus notifications — the failed FocusOut calls
+dropped — pair up (FocusOut to the widget focused then, FocusIn to the new one) and the focused widget is the last FocusIn receiver
+(or the root).  A failing FocusIn handler does not disturb the pairing (the focus has moved, only its command is dropped).
+`Lemmas/VxfwFocusErr.lean`: the relation `FPe` (pairing of the trace stretch with the call counter threaded through) through every
+error-aware function. -/
+theorem focus_pairs_err : focus_pairs_err_full :=
+  fun e fuel root t0 steps => focusPairs_eRun e fuel root t0 steps
 
 end VaxisModel.Props.C15Err
